@@ -15,7 +15,7 @@ OBLIGATIONS = (
     DISPATCH
     + pick("C02", r"table\.(remabsent\.home3|getabsent\.home4)\.ns5|table\.resize\.ns5", tiers=("quick", "thorough"))
     + pick("C03", r"tree\.remabsent\.q[0-5]$", tiers=("quick", "thorough"))
-    + pick("C04", r"array\.(bad_index|rem_absent|pop_empty)\.", tiers=("quick", "thorough"))
+    + pick("C04", r"(array|list|tuple)\.(bad_index|rem_absent|pop_empty)\.|tuple\.resize\.", tiers=("quick", "thorough"))
     + pick("C16", r"string\.remabsent", tiers=("quick", "thorough"))
     + pick("C11", r"range\.iter", tiers=("quick", "thorough"))
     + pick("C14", r"print\.scanner\.fl3", tiers=("quick", "thorough"))
@@ -24,4 +24,4 @@ LEVEL_TEXT = ("Bounded model checking: each failing operation (out-of-range inde
               "non-heap reallocation, impossible resize, too few format arguments) executed symbolically on the real code from arbitrary valid states within the C02/C03/C04/C16 bounds; "
               "the oracle runs at the throw point: documented exception object, operand bytes and ownership ledger unchanged, nothing invoked.")
 LEVEL_NOTE = ("Trusted: cbmc; exception_throw replaced by the oracle + path end (what longjmp does); 'remains fully usable afterwards' follows from 'state unchanged' plus the step obligations of "
-              "C02-C04 (same state); OutOfMemoryError paths and List are not covered.")
+              "C02-C04 (same state); OutOfMemoryError paths are not covered.")
